@@ -42,6 +42,19 @@ CLAIMED["C03"] = ("static: who-may-call rule for aggregator mutators + lock-set/
   "Trusts encoding/csv. Does not decide equality with an independent aggregation for every corpus nor CSV round trip of arbitrary keys.",
   "DESIGN.md §3 C03")
 
+CLAIMED["C01"] = ("static path rules over go/cfg: exhaustive acyclic path enumeration of processLineSync (exactly-once counters), per-iteration path rules and must-pass-through rules on the batcher loops, shape rules on the worker loop, WaitGroup/close ordering, atomic-consistency, guard facts on IgnoreMatch/Truthy",
+  "Decides the pipeline-structure conditions of 'every line read once, classified once': counters added exactly once per path and only in the classifying function, every scanned line appended once and every append sent (including the final partial batch), a sent batch never appended to again, the worker visits every line of every batch until the channel is closed, closes ordered after senders, ignore = Truthy. Exhaustive over the code paths of these functions, not over inputs or schedules.",
+  "Trusts channel semantics. Does not decide that emitted keys equal a sequential evaluation for every input, nor exact line splitting (C04).",
+  "DESIGN.md §3 C01")
+CLAIMED["C02"] = ("static value-flow and ordering rules: line-number arithmetic (send -> advance by len(batch) -> fresh batch on every iteration path, BatchStart+index in the worker, parameters into the Match literal), audited unsafe sites with keep-alive flow, scanner buffer write discipline, IntPool no-recycle shape, E-PANIC obligations of group lookup and colour wrapping, separator-by-position rule for the list view, flag flows into the matcher constructors",
+  "Decides the structural conditions under which a match carries its true source, line number, text and groups for as long as it is held: numbering arithmetic on all paths, zero-copy view kept alive by the same slice, buffers and index slices never rewritten or recycled, group lookups bounded, flags wired.",
+  "Trusts regexp's FindSubmatchIndex contract. Does not decide capture values against regexp semantics, in-order emission, or byte identity of coloured output.",
+  "DESIGN.md §3 C02")
+CLAIMED["C04"] = ("static write-discipline analysis of scanner buffers (fresh-on-every-path via barrier reachability over go/cfg, tail-beyond-end shape), ordering rules for Read count vs error handling, guard facts for the error callback and for no-read-after-eof, dropCR wiring by branch facts, E-PANIC obligations of pkg/readahead",
+  "Decides the aliasing and error clauses: nothing writes into bytes a handed-out line can cover, positions are rewound only with a fresh buffer, bytes read together with an error are kept, the error callback fires only for non-EOF errors, eof is recorded on every error path and nothing is read afterwards, newline-terminated tokens pass through dropCR and the tail does not, all slice expressions are in range.",
+  "Assumes readers/callbacks do not re-enter the scanner. Does not decide that tokens are exactly the newline-delimited segments for every chunking.",
+  "DESIGN.md §3 C04")
+
 PENDING_REASON = "static check for this property is designed in DESIGN.md §3 but not yet built in this revision of /verif; not claimed until it runs"
 
 def main():
